@@ -399,7 +399,12 @@ fn main() {
         // key = backend:inst:template|profile
         let mut it = k.splitn(3, ':');
         let (b, i) = (it.next().unwrap_or("?").to_string(), it.next().unwrap_or("?").to_string());
-        let w = json!({"backend": b, "instruction": i, "case": k, "class": "undefined-behaviour", "sanitizer": m});
+        let rest = it.next().unwrap_or("?");
+        let (template, profile) = rest.rsplit_once('|').unwrap_or((rest, ""));
+        // keep the sanitizer's diagnosis, drop the scratch path / line
+        let diag = m.split("runtime error:").nth(1).map(|d| format!("UBSan runtime error:{d}")).unwrap_or_else(|| m.clone());
+        let w = json!({"backend": b, "instruction": i, "expression": template, "template": template, "operand": VAR, "operand_type": "declared type", "profile": profile,
+                       "class": "undefined-behaviour", "got": diag, "input": "some input of the domain (the sanitizer aborted the worker)", "expected": "a defined value", "sanitizer": m});
         bad.entry((b, i)).or_default().push(("undefined-behaviour".into(), w, 1, 1));
     }
     for ((backend, inst), mut v) in bad {
